@@ -7,7 +7,7 @@ From Coq Require Import Lqa Lia.
 From LCM Require Import Base.Prelude Base.Arr Base.ArrOps Base.QKernel Model.Dispatchers Model.QOps Model.FunctionRepresentation.
 From LCM Require Import Gen.ModelFunctions Spec.Interp Spec.Lang Spec.Bellman.
 From LCM Require Import Proofs.ArrLemmas Proofs.ArrLemmas2 Proofs.C19_Dispatch Proofs.C11_Affine Proofs.C11_ModelFunctions
-                        Proofs.C01_Bridge Proofs.C14_Refine Proofs.C14_OnLayout.
+                        Proofs.C01_Bridge Proofs.C14_Refine Proofs.C14_OnLayout Proofs.C14_OnLayoutIx.
 Local Open Scope Q_scope.
 
 (* ---- the next state at a node: labels of the node for the stochastic states, the deterministic ------ *)
@@ -247,12 +247,12 @@ Hypothesis Hread : forall idx, in_bounds shape_ idx -> exists q, qread sts F (no
 Definition next_states_kw : list (string * qarr) := map (fun sg => (next_name (fst sg), next_array is_st det sg)) sts.
 Definition weights_kw : list (string * qarr) :=
   map (fun sr : (string * grid) * list Q => (("weight_next_" ++ fst (fst sr))%string, vec (snd sr))) (combine ss rows).
-(* the scalar value function: the function representation on the documented layout of the next table *)
-Definition FR (vals : list Q) : Q :=
-  match disc_labels sts vals with
-  | Some dl => function_representation (layout_array sts F) None [] (map Z.of_nat dl) (conts_of sts vals)
-  | None => 0
-  end.
+(* the scalar value function, as a function of the next values of all states in declaration order; what is
+   needed of it: at every node it returns the value the specification reads (instantiated below with the
+   function representation on the documented layout, with and without filter-restricted states) *)
+Variable FR : list Q -> Q.
+Hypothesis HFR : forall idx q, in_bounds shape_ idx ->
+  qread sts F (node_vals sts is_st det idx) = Some q -> FR (node_vals sts is_st det idx) == q.
 Definition svf : func := mkFunc (map next_name (map fst sts)) (fun args => scalar (FR (map (fun a => qget a []) args))).
 Definition svars : list string := map fst ss.
 
@@ -360,10 +360,7 @@ Proof.
                 = Some (node_vals sts is_st det idx))
       by exact (spec_next_values_at_node is_st det (next_det m p e) sts idx Hnd (idx_length idx Hb) Hdet).
     unfold node_value. rewrite E. unfold vnext. fold sts. rewrite vread_finite. now rewrite Hq.
-  - rewrite (ccvs_entry idx Hb). unfold FR.
-    destruct (qread_some_disc_labels sts F _ q Hq) as (dl & Hd). rewrite Hd.
-    symmetry. apply (function_representation_on_the_layout_array sts F (node_vals sts is_st det idx) q dl Hvalid); [|exact Hq|exact Hd].
-    apply length_node_vals. exact (idx_length idx Hb).
+  - rewrite (ccvs_entry idx Hb). symmetry. now apply HFR.
 Qed.
 
 Theorem one_bellman_step_of_the_code_is_the_specifications :
@@ -389,3 +386,83 @@ Proof.
   unfold names, multiply_weights_arg_names, svars. rewrite !map_length. apply rows_length.
 Qed.
 End Step.
+
+(* ---- instantiation 1: no filter-restricted states (no indexer) ----------------------------------------- *)
+Definition FR_free (sts : list (string * grid)) (F : list nat -> Q) (vals : list Q) : Q :=
+  match disc_labels sts vals with
+  | Some dl => function_representation (layout_array sts F) None [] (map Z.of_nat dl) (conts_of sts vals)
+  | None => 0
+  end.
+
+Lemma FR_free_reads sts F vals q : grids_valid sts -> length vals = length sts ->
+  qread sts F vals = Some q -> FR_free sts F vals == q.
+Proof.
+  intros Hv Hl Hq. unfold FR_free. destruct (qread_some_disc_labels sts F vals q Hq) as (dl & Hd). rewrite Hd.
+  apply (function_representation_on_the_layout_array sts F vals q dl Hv Hl Hq Hd).
+Qed.
+
+(* ---- instantiation 2: with filter-restricted states (rank axis + state indexer) -------------------------- *)
+Definition FR_ix (isr : string -> bool) (remaining : list (list nat)) (sts : list (string * grid)) (F : list nat -> Q)
+           (vals : list Q) : Q :=
+  match disc_labels sts vals with
+  | Some dl_all =>
+      function_representation (layout_array_ix isr remaining sts F) (Some (indexer_array isr remaining sts))
+                              (map Z.of_nat (fst (split_labels isr sts dl_all)))
+                              (map Z.of_nat (snd (split_labels isr sts dl_all))) (conts_of sts vals)
+  | None => 0
+  end.
+
+Lemma FR_ix_reads isr remaining sts F vals q dl_all : grids_valid sts -> length vals = length sts ->
+  qread sts F vals = Some q -> disc_labels sts vals = Some dl_all ->
+  In (fst (split_labels isr sts dl_all)) remaining -> FR_ix isr remaining sts F vals == q.
+Proof.
+  intros Hv Hl Hq Hd Hr. unfold FR_ix. rewrite Hd.
+  apply (function_representation_on_the_indexed_layout isr remaining sts F vals q dl_all Hv Hl Hq Hd Hr).
+Qed.
+
+(* ---- the two instances ------------------------------------------------------------------------------------ *)
+Section Instances.
+Variables (m : model) (p : params) (e : env) (F : list nat -> Q) (det : string -> Q) (rows : list (list Q)).
+Variables (u : Q) (FE : Type) (fe : FE) (t : nat) (kwargs : list (string * qarr)).
+Hypothesis Hnd : NoDup (map fst (states m)).
+Hypothesis Hvalid : grids_valid (states m).
+Hypothesis Hu : eval_fun (depth m) m p e "utility" = Some u.
+Hypothesis Hdet : forall sg, In sg (states m) -> is_stochastic m (fst sg) = false -> next_det m p e (fst sg) = Some (det (fst sg)).
+Hypothesis Hrows : omap (fun sg : string * grid => weight_row m p e (fst sg)) (stoch_states m) = Some rows.
+Hypothesis Hrowlen : Forall2 (fun (sg : string * grid) (row : list Q) => length row = grid_size (snd sg)) (stoch_states m) rows.
+Hypothesis Hread : forall idx, in_bounds (map (fun sg : string * grid => grid_size (snd sg)) (stoch_states m)) idx ->
+  exists q, qread (states m) F (node_vals (states m) (is_stochastic m) det idx) = Some q.
+
+Lemma node_vals_length idx : in_bounds (map (fun sg : string * grid => grid_size (snd sg)) (stoch_states m)) idx ->
+  length (node_vals (states m) (is_stochastic m) det idx) = length (states m).
+Proof.
+  intros Hb. apply length_node_vals. rewrite (in_bounds_length _ _ Hb), map_length. reflexivity.
+Qed.
+
+(* without filter-restricted states: the value array has no rank axis and there is no indexer *)
+Theorem one_bellman_step_without_restricted_states :
+  exists v, objective m p false (fun idx => VFin (F idx)) e = VFin v /\
+            fst (code_value m p det rows u FE fe t kwargs (FR_free (states m) F)) == v /\
+            snd (code_value m p det rows u FE fe t kwargs (FR_free (states m) F)) = fe.
+Proof.
+  apply (one_bellman_step_of_the_code_is_the_specifications m p e F det rows u FE fe t kwargs Hnd Hu Hdet Hrows Hrowlen Hread).
+  intros idx q Hb Hq. apply FR_free_reads; [exact Hvalid|now apply node_vals_length|exact Hq].
+Qed.
+
+(* with filter-restricted states: rank axis + state indexer; every node's restricted combination remains *)
+Variables (isr : string -> bool) (remaining : list (list nat)).
+Hypothesis Hremain : forall idx dl_all, in_bounds (map (fun sg : string * grid => grid_size (snd sg)) (stoch_states m)) idx ->
+  disc_labels (states m) (node_vals (states m) (is_stochastic m) det idx) = Some dl_all ->
+  In (fst (split_labels isr (states m) dl_all)) remaining.
+
+Theorem one_bellman_step_with_restricted_states :
+  exists v, objective m p false (fun idx => VFin (F idx)) e = VFin v /\
+            fst (code_value m p det rows u FE fe t kwargs (FR_ix isr remaining (states m) F)) == v /\
+            snd (code_value m p det rows u FE fe t kwargs (FR_ix isr remaining (states m) F)) = fe.
+Proof.
+  apply (one_bellman_step_of_the_code_is_the_specifications m p e F det rows u FE fe t kwargs Hnd Hu Hdet Hrows Hrowlen Hread).
+  intros idx q Hb Hq. destruct (qread_some_disc_labels _ _ _ _ Hq) as (dl_all & Hd).
+  apply (FR_ix_reads isr remaining (states m) F _ q dl_all Hvalid (node_vals_length idx Hb) Hq Hd).
+  exact (Hremain idx dl_all Hb Hd).
+Qed.
+End Instances.
